@@ -261,7 +261,7 @@ def run_validator(cases):
 def run(ctx):
     status = coqbuild.prove("C06", THEOREMS)
     rng = ctx.rng
-    n = 600 if ctx.quick else 8000
+    n = 600 if ctx.quick else 24000
     cases = [gen_case(rng) for _ in range(n)]
     batches = [cases[i:i + 50] for i in range(0, len(cases), 50)]
     agg = {"n": 0, "params": 0, "literals": 0}
